@@ -387,3 +387,100 @@ pub fn replay_scenario(case: &J, rep: &mut Report) {
     let nontrivial = case["calls"].as_array().map(|c| !c.is_empty()).unwrap_or(false) || rules.len() > 1 || case.get("builder").is_some();
     rep.case_ok(nontrivial, || json!({"rules": rules.iter().map(|r| format!("{}: {}", r.name(), r.expr())).collect::<Vec<_>>(), "schedule": case["schedule"], "invocations": log.to_model()}));
 }
+
+
+// ------------------------------------------------------------------------------------------
+// Engine `session` (end to end): rule texts -> Rule::parse -> builder -> evaluate(&serializable input)
+
+pub fn replay_session(case: &J, rep: &mut Report) {
+    use crate::ser::term_from_model;
+    let x = &case["x"];
+    let kind = x["k"].as_str().unwrap_or("?");
+    let key = format!("session:{kind}");
+    let fail = |rep: &mut Report, why: String| {
+        if why.starts_with("TOOL:") { rep.tool_error(why) } else { rep.mismatch(&key, json!({"engine": "session", "case": case, "why": why})) }
+    };
+    let texts: Vec<String> = match case["texts"].as_array().map(|a| a.iter().map(uncps).collect::<Result<Vec<_>, _>>()) {
+        Some(Ok(t)) => t,
+        _ => return rep.tool_error("session: texts".into()),
+    };
+    rep.evaluations += 1;
+    // 1. parse every text as a rule
+    let mut rules = Vec::new();
+    for (i, t) in texts.iter().enumerate() {
+        let r = std::panic::catch_unwind(|| Rule::parse(t));
+        match r {
+            Err(p) => return fail(rep, format!("Rule::parse panicked on text {}: {}", i + 1, panic_msg(p))),
+            Ok(Err(e)) => {
+                let got = if matches!(e, reval::parse::Error::MissingRuleName) { "missing" } else { "parse" };
+                if kind == "parse" && x["at"].as_u64() == Some(i as u64 + 1) && x["why"].as_str() == Some(got) {
+                    return rep.case_ok(true, || json!({"texts": texts, "result": format!("text {} rejected: {}", i + 1, got)}));
+                }
+                return fail(rep, format!("text {} rejected ({got}: {e}), the specification says {}", i + 1, x));
+            }
+            Ok(Ok(rule)) => rules.push(rule),
+        }
+    }
+    if kind == "parse" {
+        return fail(rep, format!("every text parsed, the specification rejects text {}", x["at"]));
+    }
+    // 2. builder
+    let log = Arc::new(Log::default());
+    let mut b = match ruleset().with_rules(rules.clone()) {
+        Ok(b) => b,
+        Err(e) => {
+            let obs = classify(&e);
+            return match (&obs, kind) {
+                (Obs::Err { variant, name, .. }, "dup") if variant == "DuplicateRuleName" && name.as_deref().map(cps) == Some(x["n"].clone()) => {
+                    rep.case_ok(true, || json!({"texts": texts, "result": "duplicate rule name refused"}))
+                }
+                _ => fail(rep, format!("with_rules failed with {:?}, the specification says {}", obs_to_model(&obs), x)),
+            };
+        }
+    };
+    if kind == "dup" {
+        return fail(rep, "with_rules accepted rules with a duplicate name".into());
+    }
+    for f in case["funcs"].as_array().map(|a| a.as_slice()).unwrap_or(&[]) {
+        let mf = match modelfn_from_model(f, log.clone()) {
+            Ok(m) => m,
+            Err(e) => return rep.tool_error(e),
+        };
+        b = match b.with_function(mf) {
+            Ok(b) => b,
+            Err(e) => return fail(rep, format!("with_function refused: {e}")),
+        };
+    }
+    let mut tab = Vec::new();
+    for sv in case["syms"].as_array().map(|a| a.as_slice()).unwrap_or(&[]) {
+        match (uncps(&sv[0]), from_model(&sv[1])) {
+            (Ok(n), Ok(v)) => tab.push((n, v)),
+            _ => return rep.tool_error("session: syms".into()),
+        }
+    }
+    b = match b.with_symbols(Symbols::from(tab)) {
+        Ok(b) => b,
+        Err(e) => return fail(rep, format!("with_symbols refused: {e}")),
+    };
+    let rs = b.build();
+    // 3. evaluate against the serializable input
+    let term = match term_from_model(&case["term"]) {
+        Ok(t) => t,
+        Err(e) => return rep.tool_error(format!("term: {e}")),
+    };
+    let res = block_on(rs.evaluate(&term));
+    let verdict = match (res, kind) {
+        (Err(p), _) => Err(format!("RuleSet::evaluate panicked: {p}")),
+        (Ok(Err(e)), "ser") => match classify(&e) {
+            Obs::Err { variant, .. } if variant == "ValueSerializationError" => Ok(()),
+            o => Err(format!("evaluate failed with {:?}, expected a serialization error", obs_to_model(&o))),
+        },
+        (Ok(Err(e)), _) => Err(format!("evaluate failed as a whole: {e}")),
+        (Ok(Ok(_)), "ser") => Err("evaluate succeeded although the input cannot be serialized".into()),
+        (Ok(Ok(outs)), _) => outcomes_match(&x["outcomes"], &outs, &rules).and_then(|_| calls_match(&x["calls"], &log)),
+    };
+    match verdict {
+        Ok(()) => rep.case_ok(true, || json!({"texts": texts, "result": kind})),
+        Err(why) => fail(rep, why),
+    }
+}
